@@ -491,7 +491,9 @@ impl<'c> Enc<'c> {
         let opt = if ty == Ty::Bool {
             0
         } else {
-            let nopt = if n >= 8 { 1 } else if n == 7 { 2 } else { 3 };
+            // minimal / one byte longer / 8 bytes / 9 bytes / 13 bytes (leading zero groups: the value
+            // still fits 32 bits, so the SML rule accepts all of them)
+            let nopt = if n >= 8 { 1 } else if n == 7 { 2 } else { 5 };
             let o = self.choose(nopt);
             if force_multi && o == 0 && n == 1 {
                 1
@@ -502,7 +504,9 @@ impl<'c> Enc<'c> {
         let nbytes = match opt {
             0 => n,
             1 => n + 1,
-            _ => 8,
+            2 => 8,
+            3 => 9,
+            _ => 13,
         };
         let v: u128 = if is_list { count as u128 } else { count as u128 + nbytes as u128 };
         for k in 0..nbytes {
